@@ -1,4 +1,87 @@
-"""C15 — not built yet."""
+"""C15 — reflection descriptors describe the IDL exactly (DESIGN.md §5.15, docs/C15.md)."""
+import json, os
+from vlib import core
+
+THEOREMS = ["Props.C15." + t for t in [
+    "schema_agrees", "schema_ok", "const_value_type_numbering", "requiredness_strings", "uuid_key_agrees",
+    "describe_faithful_partial", "describe_loses_include", "describe_loses_namespace", "annotations_keep_all_values",
+    "const_value_faithful", "type_expr_faithful",
+    "descriptor_roundtrip", "descriptor_wire_determines", "descriptor_welltyped",
+    "register_closed", "lookup_finds_partial", "lookup_collision_witness", "field_lookup_finds",
+    "const_type_unregistered", "gotype_bijection_partial", "gotype_alias_witness"]]
+
+
 def run(ctx):
-    print("C15: no check built yet")
-    return 2
+    exe = ctx.go_build("c15")
+    ctx.trusted += ["translator harness/cmd/c15 extract (descriptor.thrift by the real parser; cross-checked against the StructMeta "
+                    "bytes embedded in descriptor.go, decoded by meta.Unmarshal, and the Go struct tags/field order by reflect)",
+                    "correspondence harness harness/cmd/c15 run vs tv_c15 (GetFileDescriptor, Marshal/Unmarshal, RegisterAST + lookup API)",
+                    "gzip (compress/gzip) around the descriptor bytes; Go reflect.Type as registry key"]
+    ctx.assumptions += ["the include structure is the finite tree of inc.Reference pointers (the parser rejects include cycles); "
+                        "files are identified by Filename (same Filename => same AST)",
+                        "Go map iteration order is represented by the order of the model's association lists; both sides are compared "
+                        "after sorting map entries (byte order on the wire, text order in dumps)",
+                        "meta.Marshal/Unmarshal behave as the shared schema-driven codec Gen.Std at the regenerated schema "
+                        "(checked by the M/U correspondence ops on every descriptor produced)"]
+    ctx.partial += ["describe_faithful_partial: needs pairwise distinct include base names, namespace languages and annotation keys "
+                    "(the last is guaranteed by the parser, proved as annotations_keep_all_values); negative witnesses replayed",
+                    "lookup_finds_partial: needs distinct include base names in the looking file, non-empty filenames and a registered "
+                    "uuid; lookups with filepath \"\" (Go map iteration, nondeterministic) are outside",
+                    "gotype_bijection_partial: registry model only; reflect.Type identity of generated Go types is outside Lean "
+                    "(typedef aliases share their target's reflect.Type: gotype_alias_witness)"]
+    if exe:
+        if ctx.replay:
+            rc, out = core.sh([exe, "replay", "-repo", core.REPO, "-file", ctx.replay])
+            fails = json.loads(out.strip().split("\n")[-1]) if rc == 0 else []
+            for f in fails:
+                ctx.add_violation(f["key"], f["what"], f["input"], f["expected"], f["observed"])
+            ctx.cov["evaluations"] = 1
+            return ctx.finish(rule="replay of one IDL program")
+        rc, gen = core.sh([exe, "extract", "-repo", core.REPO])
+        if rc != 0:
+            ctx.obligation("translator:c15-extract (descriptor.thrift = registered StructMeta = Go struct tags)", False, gen[-2000:])
+        else:
+            ctx.obligation("translator:c15-extract (descriptor.thrift = registered StructMeta = Go struct tags)", True)
+            ctx.write_generated("C15Schema", gen)
+    built = ctx.lake_build(["ThriftVerif.Props.C15"], "lake-build:Props.C15")
+    drv = ctx.lake_build(["tv_c15"], "lake-build:tv_c15")
+    if built:
+        ctx.audit("C15", THEOREMS)
+        if ctx.tier == "thorough":
+            ctx.leanchecker(["ThriftVerif.Props.C15"])
+    if exe:
+        rc, out = core.sh([exe, "run", "-repo", core.REPO, "-dir", ctx.work, "-seed", str(ctx.seed), "-tier", ctx.tier], timeout=3000)
+        if rc != 0:
+            raise core.MachineryError("c15 run failed: " + out[-3000:])
+        st = json.load(open(os.path.join(ctx.work, "stats.json")))
+        dist = dict(st["distribution"])
+        ctx.cov.update(evaluations=st["evaluations"], distinct_nontrivial=st["distinct_nontrivial"], samples=st["samples"],
+                       exhaustive=False)
+        for f in (st.get("oracle_failures") or []):
+            ctx.add_violation(f["key"], f["what"], f["input"], f["expected"], f["observed"])
+        if drv:
+            model = ctx.run_model("tv_c15", os.path.join(ctx.work, "ops.txt"))
+            ctx.diff_lines("c15-inprocess", os.path.join(ctx.work, "ops.txt"), os.path.join(ctx.work, "impl.txt"), model)
+        # compiled part: thorough tier (set VERIF_C15_COMPILED=1 to force it in quick)
+        if ctx.tier == "thorough" or os.environ.get("VERIF_C15_COMPILED"):
+            cdir = os.path.join(ctx.work, "compiled")
+            os.makedirs(cdir, exist_ok=True)
+            rc, out = core.sh([exe, "compiled", "-repo", core.REPO, "-dir", cdir, "-seed", str(ctx.seed), "-tier", ctx.tier], timeout=3000)
+            if rc != 0:
+                raise core.MachineryError("c15 compiled failed: " + out[-3000:])
+            cs = json.load(open(os.path.join(cdir, "stats.json")))
+            ctx.cov["evaluations"] += cs["evaluations"]
+            ctx.cov["distinct_nontrivial"] += cs["distinct_nontrivial"]
+            for k, v in cs["distribution"].items():
+                dist["compiled:" + k] = v
+            for f in (cs.get("oracle_failures") or []):
+                ctx.add_violation(f["key"], f["what"], f["input"], f["expected"], f["observed"])
+            if drv:
+                model = ctx.run_model("tv_c15", os.path.join(cdir, "ops.txt"), out_path=os.path.join(cdir, "model.txt"))
+                ctx.diff_lines("c15-compiled", os.path.join(cdir, "ops.txt"), os.path.join(cdir, "impl.txt"), model)
+        ctx.cov["distribution"] = dist
+    return ctx.finish(rule="multi-file IDL programs (1-5 files, include DAGs, equal base names in different directories, every definition "
+                           "kind, annotations with repeated keys, comments, constants of every syntactic shape, typedef chains across files) "
+                           "generated from the seed; per file: describe / marshal / unmarshal ops; per program: RegisterAST, registry dumps, "
+                           "lookups by name/id/type descriptor incl. misses and malformed names; every op is non-trivial except the "
+                           "state-building P/A lines; distinct by sha256 of the op line")
